@@ -444,6 +444,14 @@ class CSemantics:
                     location,
                 )
 
+            # The width is a constant in the range of 0 to the width of
+            # the type:
+            width = self.context.eval_expr(bitsize)
+            if width < 0:
+                self.error("Negative width in bit-field", location)
+            if width > self.context.sizeof(ctyp) * 8:
+                self.error("Width of bit-field exceeds its type", location)
+
         field = types.Field(ctyp, name, bitsize)
         return field
 
